@@ -79,7 +79,7 @@ def run(case):
                     return "df[%s] at t=%r state %s = %r expected %r" % (ty, t, st, g, e)
     return None
 
-case = [(0.0, [('b', 'active', {'y': ('Double', 0.0), 's': ('String', 'txt')})]), (1.0, [('b', 'z', {'y': ('Double', 0.25), 's': ('String', 'txt')})])]
+case = [(0.0, [('b', 'active', {'y': ('Double', 2.5), 's': ('String', 'txt')}), ('c', 'active', {}), ('b', 'active', {'y': ('Double', 0.0), 's': ('String', 'txt')})]), (1.0, [])]
 try:
     bad = run(case)
 except Exception as e:
